@@ -355,6 +355,8 @@ def build(case):
             n = max(sp["ps"].keys(), default=-1) + 1
             sp["args"] = [sp["ps"].get(i, ("static", None)) for i in range(n)]
         res["job"] = JobInstance(tasks=tasks, edges=edges)
+        if case.get("via_gateway"):
+            res["job"], res["gateway"] = _via_gateway(res["job"])
         res["order"] = names
         return res
 
@@ -472,6 +474,8 @@ def build(case):
         res["lower_error"] = "notImplemented"
     except Exception as e:   # unexpected: a result to compare, not a crash
         res["lower_error"] = "other:" + type(e).__name__
+    if case.get("via_gateway") and res.get("job") is not None:
+        res["job"], res["gateway"] = _via_gateway(res["job"])
     # topological order = declaration order for hand/fluent; sources first for prog
     if kind == "fprog":
         pass
@@ -480,6 +484,51 @@ def build(case):
     else:
         res["order"] = [nd.name for nd in nodes]
     return res
+
+
+def _via_gateway(job):
+    """the job instance as a spawned controller gets it: written by the real gateway `router._spawn_local` (Popen captured)
+    and read back by the real `cascade.benchmarks.__main__.get_job`. Jobs the writer cannot encode (non-JSON statics) stay
+    as they are. Returns (job, how)."""
+    import os
+    import uuid
+    import cascade.gateway.router as router
+    from cascade.gateway.api import JobSpec
+    import cascade.benchmarks.__main__ as bm
+    argv = []
+
+    class _Popen:
+        def __init__(self, a, **kw):
+            argv.extend(a)
+    jid = "ekwc10" + uuid.uuid4().hex[:10]
+    saved = router.subprocess.Popen
+    router.subprocess.Popen = _Popen
+    path = None
+    try:
+        try:
+            router._spawn_local(JobSpec(benchmark_name=None, envvars={}, job_instance=job, workers_per_host=1, hosts=1, use_slurm=False), "tcp://x:1", jid)
+        except Exception as e:
+            return job, "unencodable:" + type(e).__name__
+        path = argv[argv.index("--instance") + 1]
+        try:
+            job2 = bm.get_job(None, path)
+        except Exception as e:
+            return job, "unreadable:" + type(e).__name__
+        # JSON alters some static values (tuple -> list, ...): that is C17's matter (known findings there); such a job
+        # keeps travelling in memory. Everything else (task set, edges, definitions incl. the ORDER of output_schema) counts.
+        def statics(j):
+            return {t: (repr(sorted(i.static_input_kw.items(), key=repr)), repr(sorted(i.static_input_ps.items(), key=repr))) for t, i in j.tasks.items()}
+        try:
+            if statics(job2) != statics(job):
+                return job, "statics-altered-by-json"
+        except Exception:
+            return job, "statics-not-comparable"
+        return job2, "file"
+    finally:
+        router.subprocess.Popen = saved
+        for pth in (path, f"/tmp/{jid}.json"):
+            if pth and os.path.exists(pth):
+                os.unlink(pth)
 
 
 def _build_fprog(case, res):
